@@ -4,7 +4,7 @@
 cd /verif
 out=seeded/MATRIX.txt; : > $out
 for d in seeded/*/; do
-  id=$(basename $d); prop=${id%%-*}; prop=${prop%B}
+  id=$(basename $d); prop=${id:0:3}
   p=$d/patch.diff; [ -f $d/patch_rebased.diff ] && p=$d/patch_rebased.diff
   r=$(tools/seed_run.sh /verif/$p $prop 2>&1)
   code=$(echo "$r" | grep -o "exit=[0-9]*" | tail -1)
